@@ -87,3 +87,43 @@ def start_functions(root):
 
 def functions_report():
     return sorted(f for f in _funcs if "<" not in f.split(":")[1].split(".")[-1] or "<lambda>" in f)
+
+
+# ---- argument audit (off by default; PFV_ARGAUDIT=<dir>): which parameters of the library's functions did the workload ever move off their default ----
+_args = {}
+
+
+def start_argaudit(root):
+    import inspect
+
+    root = root.rstrip("/") + "/"
+    defaults_cache = {}
+
+    def prof(frame, event, arg):
+        if event != "call":
+            return
+        code = frame.f_code
+        fn = code.co_filename
+        if not fn.startswith(root):
+            return
+        key = fn[len(root):] + ":" + code.co_qualname
+        names = code.co_varnames[: code.co_argcount + code.co_kwonlyargcount]
+        rec = _args.setdefault(key, {})
+        loc = frame.f_locals
+        for n in names:
+            if n in ("self", "cls"):
+                continue
+            v = loc.get(n, None)
+            if isinstance(v, (bool, int, float, str, type(None))):
+                tag = repr(v) if not isinstance(v, float) else "float:%.6g" % v
+            else:
+                tag = type(v).__name__
+            st = rec.setdefault(n, set())
+            if len(st) < 6:
+                st.add(tag)
+
+    sys.setprofile(prof)
+
+
+def argaudit_report():
+    return {k: {n: sorted(v) for n, v in d.items()} for k, d in _args.items()}
